@@ -45,6 +45,7 @@ def check(ctx, rep):
 
     # ---- CanCustomize.with_X
     cands = []
+    inherits = {}
     for n in withs:
         m = cc.methods[n]
         ps, it = ctx.paths(m, cc, depth=4, inline=_own_helpers(cc))
@@ -54,6 +55,7 @@ def check(ctx, rep):
         if KW is None:
             continue
         nret = 0
+        inherits[n] = False
         for p in ps:
             if p.status != "return":
                 continue
@@ -84,11 +86,14 @@ def check(ctx, rep):
                 attr = first_true[0]
                 val = stores[0].d["value"] if stores else None
                 okv = len(stores) == 1 and val in (("attr", SELF, attr), ("call", ("name", "getattr"), (SELF, ("const", attr)), (), None)) and stores[0].seq < d.seq
+                inherits[n] = inherits[n] or okv
                 rep.ob("R-WITH", key + " inherits the name", okv, "self has %s and no name was given: kwargs['name'] must become self.%s before the delegation (stores: %s)" % (attr, attr, [fmt(e.d["value"]) for e in stores]), where_of(m), trace_of(p))
             else:
                 rep.ob("R-WITH", key + " does not override a given name", not stores, "kwargs['name'] is overwritten although %s" % ("a name was given" if given else "no name attribute was found"), where_of(m), trace_of(p))
         rep.ob("R-WITH", key + " has a normal path", nret > 0, "", where_of(m))
     rep.require(len(cands) >= 1, "CanCustomize.with_*: no hasattr(self, <name attribute>) test found: names are not propagated")
+    for n in withs:
+        rep.ob("R-WITH", "CanCustomize.%s passes the executor's name on" % n, inherits.get(n, False), "no path of %s puts the name attribute of self into kwargs['name']: the layer created by this call is named 'default' whatever the executor it is chained onto is called (its siblings do propagate it)" % n, where_of(cc.methods[n]))
 
     # ---- Executors.with_X
     for n in ewiths:
